@@ -265,8 +265,7 @@ where
             if !got.is_empty() {
                 st.nonempty += 1;
             }
-            let (a, _) = reg.bounds();
-            if u64::from(index.reference_sequences()[rid].min_offset(ms, d, pos(a))) > 0 {
+            if model::pruning_removed_chunks(index, rid, reg) {
                 st.pruned += 1;
             }
             if let Err((symptom, which)) = model::compare(&exp, &got) {
